@@ -1,2 +1,3 @@
 pub mod c12;
 pub mod c13;
+pub mod c14;
